@@ -27,7 +27,10 @@ for n in names:
                           "tools/seed_run.py <seed> <check>: ./check <id> quick against a scratch copy of /repo/qubovert with the patch applied (VERIF_REPO), "
                           "equivalent to git -C /repo apply; ./check; git -C /repo checkout -- .")
     json.dump(meta, open(mp, "w"), indent=1)
-    rows.append((n, meta, res))
+allnames = sorted(n for n in os.listdir(os.path.join(ROOT, "seeded")) if os.path.isdir(os.path.join(ROOT, "seeded", n)))
+for n in allnames:
+    meta = json.load(open(os.path.join(ROOT, "seeded", n, "meta.json")))
+    rows.append((n, meta, meta.get("checks", {})))
 with open(os.path.join(ROOT, "seeded", "RESULTS.md"), "w") as f:
     f.write("# Seeded changes and which checks catch them\n\n| seed | property | summary | needs | result |\n|---|---|---|---|---|\n")
     for n, meta, res in rows:
